@@ -11,7 +11,7 @@ Extraction "mtbl_model.ml"
   bcmp sep lcp is_prefix crc32c_ref crc_slicing crc_sse42
   writer_session writer_init writer_add writer_finish writer_chunks writer_bytes clamp_block_size clamp_restart_interval metadata_read metadata_write
   write_chunks write_all error_met write_chunks_e strip_e
-  frun fs_init fstate_after setfile_names fileset_partition parity_cb ledger footprint lrun rrun obs heap_live wf_history all_destroyedb oc_default rl_none
+  frun fs_init fstate_after setfile_names loaded_names fileset_partition parity_cb ledger footprint lrun rrun obs heap_live wf_history all_destroyedb oc_default rl_none
   pool_init pstep pspurious enabled_set gett prog_wf prog_wf_weak wake_fairb sched_fairb terminalb
   sorter_init sorter_add sorter_iter sorter_next
   merger_iter_make merger_next merger_seek first_ge_from
